@@ -1,0 +1,5 @@
+fn main() {
+    // Declares the cfg flag that guards the verification hooks (off by default).
+    println!("cargo::rustc-check-cfg=cfg(remoc_verif)");
+    println!("cargo::rerun-if-changed=build.rs");
+}
